@@ -11,7 +11,7 @@ def check(run):
     import re
     def keep(oid):
         # quick tier: the long value identities of the structure factor / lattice geometry and the 3-character scanner shapes are left to C13 / C07 and to the thorough tier
-        if run.tier != 'thorough' and (re.search(r'C13/F/n\d/value/', oid) or oid.startswith('C13/geometry') or oid.startswith('C13/d/') or '/scanner/n3/' in oid): return False
+        if run.tier != 'thorough' and (re.search(r'C13/F/n\d/value/', oid) or oid.startswith('C13/geometry') or oid.startswith('C13/d/') or '/scanner/n3/' in oid or '/readfile/near' in oid): return False
         return True
     kept = frame.sweep(run, 'C03', keep=keep)
     run.parallel(frame.error_api(run, 'C03'))
